@@ -20,6 +20,11 @@ REPO = "/repo"
 
 # (property, relative file, old text, new text, substring of the unit expected to fail)
 MUTANTS = [
+    ("C10", "unified_planning/model/problem.py", "        free_vars = self.environment.free_vars_extractor.get(\n            lower\n        ) | self.environment.free_vars_extractor.get(upper)\n", "        free_vars = self.environment.free_vars_extractor.get(upper)\n", "update_action_duration"),
+    ("C10", "unified_planning/model/problem.py", "        ops = self.operators_extractor.get(lower) | self.operators_extractor.get(upper)\n", "        ops = self.operators_extractor.get(lower)\n", "update_action_duration"),
+    ("C10", "unified_planning/model/problem.py", "        if lower != upper:\n            self.kind.set_time(\"DURATION_INEQUALITIES\")", "        if lower == upper:\n            self.kind.set_time(\"DURATION_INEQUALITIES\")", "update_action_duration"),
+    ("C10", "unified_planning/model/problem.py", "            if any(fv.fluent() not in self.static_fluents for fv in free_vars):\n                self.kind.set_expression_duration(\"FLUENTS_IN_DURATIONS\")", "            if all(fv.fluent() not in self.static_fluents for fv in free_vars):\n                self.kind.set_expression_duration(\"FLUENTS_IN_DURATIONS\")", "update_action_duration"),
+    ("C10", "unified_planning/model/problem.py", "        for dur_bound in (lower, upper):\n            if dur_bound.type.is_int_type():", "        for dur_bound in (lower,):\n            if dur_bound.type.is_int_type():", "update_action_duration"),
     ("C22", "unified_planning/model/multi_agent/agent.py", "        new_ag._fluents = self._fluents.copy()\n", "        new_ag._fluents = self._fluents\n", "Agent.clone"),
     ("C22", "unified_planning/model/multi_agent/agent.py", "        new_ag._public_goals = self._public_goals.copy()\n", "        new_ag._public_goals = self._private_goals.copy()\n", "Agent.clone"),
     ("C22", "unified_planning/model/multi_agent/agent.py", "            new_ag.add_action(a.clone())\n", "            new_ag.add_action(a)\n", "Agent.clone"),
